@@ -111,6 +111,17 @@ def run(prog: Program, L: Ledger) -> None:
     ud = afb.methods.get("update_delta")
     if ud is None:
         raise AnalysisError("update_delta missing")
+    ucfg = build_cfg(ud.node)
+    dnodes = [n_ for n_ in ucfg.nodes if n_.kind == "stmt" and isinstance(n_.ast, (ast.Assign, ast.AnnAssign)) and any(norm(t) == "self.delta" for t in (n_.ast.targets if isinstance(n_.ast, ast.Assign) else [n_.ast.target]))]
+    every = bool(dnodes)
+    skipping = None
+    for path in ucfg.paths(max_back=1, include_exc=False):
+        if path[-1][0] is ucfg.exit and not any(n_ in dnodes for n_, _ in path):
+            every = False
+            skipping = [norm(n_.ast)[:60] for n_, lab in path if n_.kind == "test"]
+    L.check(every, "R3", "update_delta:every-path", ud.where,
+            f"a path through update_delta returns without recomputing delta (after testing {skipping})",
+            "the step uses a delta that does not correspond to the current variance (e.g. the constructor's midpoint at zero variance instead of max_delta)", "delta")
     vocab = Vocabulary({
         "self.min_delta": ("dmin", {"real": True}), "self.max_delta": ("dmax", {"real": True}),
         "self.update_functions[self.update_function](self.variation_coef)": ("U", {"real": True}),
